@@ -386,7 +386,7 @@ def c18_spec_view(lines):
 
 
 PROPS["C18"] = {
-    "rule": "one case per pool schema, exhaustive inside: every name (present and one absent) through type_by_name / object_type_by_name / type_map / directive_by_name / field_by_name / input_field_by_name, root operation types, kind predicates, possible_types of every type, is_named_subtype and is_possible_type on ALL pairs of names / definitions, do_types_overlap on ALL pairs of composite types, is_subtype on ALL pairs of type references with wrappers to depth 2 (quick) / 3 (thorough) over every named type (incl. shapes the grammar cannot write, e.g. T!!), Value::compare on ALL pairs of a pool of ~90 values (every kind, lists of different lengths, objects with different key sets, +0.0/-0.0, nesting to depth 3), variables_in_use; compared line by line with the extracted model, and (look-ups by name, roots, possible types, named subtyping, overlap, subtyping, value equality, variable leaves) with the executable specification relations. evaluations counts schemas; the number of individual helper calls is in 'helper_calls'. non-trivial = the schema has an interface implementing an interface or a union, or a schema definition",
+    "rule": "one case per pool schema, exhaustive inside, asked AFTER a schema history: four variants of the schema with the same number of definitions (definitions reversed, implements-lists of the objects rotated, union member lists rotated, an object renamed) take turns in ONE variable (same address) and are queried before the real schema is put back there and queried for the answers that count; then: every name (present and one absent) through type_by_name / object_type_by_name / type_map / directive_by_name / field_by_name / input_field_by_name, root operation types, kind predicates, possible_types of every type, is_named_subtype and is_possible_type on ALL pairs of names / definitions, do_types_overlap on ALL pairs of composite types, is_subtype on ALL pairs of type references with wrappers to depth 2 (quick) / 3 (thorough) over every named type (incl. shapes the grammar cannot write, e.g. T!!), Value::compare on ALL pairs of a pool of ~90 values (every kind, lists of different lengths, objects with different key sets, +0.0/-0.0, nesting to depth 3), variables_in_use; compared line by line with the extracted model, and (look-ups by name, roots, possible types, named subtyping, overlap, subtyping, value equality, variable leaves) with the executable specification relations. evaluations counts schemas; the number of individual helper calls is in 'helper_calls'. non-trivial = the schema has an interface implementing an interface or a union, or a schema definition",
     "impl_view": c18_norm, "model_view": c18_norm, "spec_view": c18_spec_view, "impl_spec_view": c18_spec_view,
     "nontrivial": lambda il, meta: len(il) > 200,
 }
@@ -395,7 +395,7 @@ PROPS["C18"] = {
 # ---------------------------------------------------------------- C12
 PROPS["C12"] = {
     "two_backends": True,
-    "rule": "call histories: one shared plan and schema, the document under test plus 2..8 (thorough: ..49) other documents (valid, invalid, cyclic) validated before and after it, forwards and backwards, every result compared with a fresh-plan run; other SCHEMAS in the history (variants with the same number of definitions taking turns in one variable, a clone at another address, a fresh thread); 16 threads validating the same documents concurrently on the shared &plan / &schema (3 rounds, rotated start); schema, documents and plan compared with clones taken before; the whole case set is also run through a second build of the harness with the other parser back end (graphql_parser_fork) and the canonical outputs must be identical; result of the document under test compared with the extracted model (errors as multisets per run of one code). distinct = distinct (schema, document, plan); non-trivial = at least one error and a history of at least 3 documents. Scheduling is stress-explored, not enumerated",
+    "rule": "call histories: one shared plan and schema, the document under test plus 2..8 (thorough: ..49) other documents (valid, invalid, cyclic) validated before and after it, forwards and backwards, every result compared with a fresh-plan run; other SCHEMAS in the history (variants with the same number of definitions — an object renamed, definitions reversed, one definition duplicated over another, directive definitions rotated, object field lists rotated — taking turns in one variable; fresh plans that meet a variant FIRST and the real schema afterwards; a clone at another address; a fresh thread); 16 threads validating the same documents concurrently on the shared &plan / &schema (3 rounds, rotated start); schema, documents and plan compared with clones taken before; the whole case set is also run through a second build of the harness with the other parser back end (graphql_parser_fork) and the canonical outputs must be identical; result of the document under test compared with the extracted model (errors as multisets per run of one code). distinct = distinct (schema, document, plan); non-trivial = at least one error and a history of at least 3 documents. Scheduling is stress-explored, not enumerated",
     "nontrivial": lambda il, meta: any(l.startswith("E ") for l in il) and meta.get("note", "history=0") not in ("history=0", "history=1", "history=2"),
     "partial": "thread interleavings, process-wide statics, HashMap random state and the choice of parser back end are facts about the compiled code: they are stress / differential runs against the model's single answer, not theorems",
 }
@@ -432,15 +432,33 @@ def c17_nontrivial(il, meta):
     return "RESULT replace" in il and meta.get("note") != "mask=0" and len(il) > 12
 
 
+# hook kinds whose nodes never contain a node of the same kind and sit in lists whose parents are
+# themselves visited in list order: for them "in list order" fixes the order of ALL calls of that kind
+# in the document (definitions, operations, fragment definitions, variable definitions, spreads);
+# between a node's different child lists (arguments / directives / selection set) the property fixes
+# nothing, so the remaining kinds are compared as multisets here (and in order with the model)
+C17_ORDERED_KINDS = ("H Definition ", "H Operation ", "H Fragment ", "H VarDef ", "H Spread ")
+
+
+def c17_compare_spec(il, sl):
+    il = [l for l in il if not l.startswith("RESULT ")]
+    if sorted(il) != sorted(sl):
+        return False
+    for k in C17_ORDERED_KINDS:
+        if [l for l in il if l.startswith(k)] != [l for l in sl if l.startswith(k)]:
+            return False
+    return True
+
+
 PROPS["C17"] = {
     "rule": "random schema-aware documents x a family of probe transformers: the identity (nothing rewritten), one hook at a time (11 hooks: definition, operation, fragment, selection set, field, fragment spread, inline fragment, directive, argument, value, variable definition), random hook combinations and all hooks, each hook logging every call and rewriting a pseudo-randomly chosen subset of its nodes in a recognisable way (moduli 1..3, offsets 0..6); plus ALL 127 Keep/Replace patterns over selection lists of length 0..6 (exhaustive). Compared: the call log (kind and identity of every hook call, in order), keep/replace of the result, and the complete resulting document (names, aliases, positions, type conditions, list orders and lengths) against the extracted model, and the call log and resulting document against the specification (hook_calls / smap_document of spec/SpecTransform.v). distinct = distinct (document, probe); non-trivial = the probe rewrites something (result is a replacement) and at least 10 hook calls",
     "nontrivial": c17_nontrivial,
     # oracle section: the specification's list of hook calls (logged) and its structural map of the
     # document; the implementation's log and resulting document must equal them
     # (as multisets of calls plus the resulting document: "exactly once per node" and "the result is
-    # the input with each node replaced"; the ORDER of the calls is compared with the model only, the
-    # property fixes it inside one list, not between a node's different child lists)
-    "compare_spec": lambda il, sl, meta, exempt: sorted(l for l in il if not l.startswith("RESULT ")) == sorted(sl),
+    # the input with each node replaced"; the ORDER of the calls is compared kind by kind where the
+    # property fixes it — see C17_ORDERED_KINDS — and completely with the model)
+    "compare_spec": lambda il, sl, meta, exempt: c17_compare_spec(il, sl),
 }
 
 
